@@ -734,7 +734,7 @@ func rowString(row []bool) string {
 
 // S-VARWHOLE: PatternMatchVariance folded as a whole function against the exact rational reference
 func checkVarianceWhole(c *Ctx, r *Report) {
-	r.Rule("S-VARWHOLE", "PatternMatchVariance(counters, pattern, limit) folded (float64 arithmetic as in Go, loops unrolled) on every counter vector with entries 0..4 for four representative patterns and five limits (0.48, 0.5, 0.7 as the readers use, and 1.25, 2.5: a limit of a module or more tolerates an empty run), and on their multiples by 2, 3 and 7: +Inf exactly when there are fewer pixels than modules or a run deviates by more than limit * unit, otherwise the total absolute deviation divided by the total width (reference in exact rational arithmetic, tolerance 1e-9; vectors sitting exactly on the limit are compared only where the float computation is exact), and the score of k*c equals the score of c", 1)
+	r.Rule("S-VARWHOLE", "PatternMatchVariance(counters, pattern, limit) folded (float64 arithmetic as in Go, loops unrolled) on every counter vector with entries 0..4 for four representative patterns and seven limits (0.48, 0.5, 0.7 as the readers use; 1.25, 2.5: a limit of a module or more tolerates an empty run; 0.125, 0.25: the allowance per run falls below half a pixel), and on their multiples by 2, 3 and 7: +Inf exactly when there are fewer pixels than modules or a run deviates by more than limit * unit, otherwise the total absolute deviation divided by the total width (reference in exact rational arithmetic, tolerance 1e-9; vectors sitting exactly on the limit are compared only where the float computation is exact), and the score of k*c equals the score of c", 1)
 	fd, p := c.funcDeclOf("oned", "PatternMatchVariance")
 	key := "oned.PatternMatchVariance/whole"
 	if fd == nil {
@@ -743,7 +743,7 @@ func checkVarianceWhole(c *Ctx, r *Report) {
 	}
 	r.Analysed(key)
 	patterns := [][]int64{{1, 1, 1, 1}, {3, 2, 1, 1}, {1, 1, 3}, {2, 1, 2, 2}}
-	limits := []float64{0.5, 0.7, 0.48, 1.25, 2.5}
+	limits := []float64{0.5, 0.7, 0.48, 1.25, 2.5, 0.125, 0.25}
 	hooks := &rpf{unroll: 64, callHook: func(rr *rpf, call *ast.CallExpr, callee types.Object) (*Val, bool) {
 		if fn, ok := callee.(*types.Func); ok && fn.Pkg() != nil && fn.Pkg().Path() == "math" && fn.Name() == "Inf" {
 			return &Val{K: VFloat, F: math.Inf(1)}, true
@@ -841,6 +841,7 @@ func checkVarianceWhole(c *Ctx, r *Report) {
 	}
 	r.Extra("variance_vectors_folded", n)
 	reportFold(r, c, "S-VARWHOLE", key, fd.Pos(), bad)
+	r.DecidedBy("M-INF", "S-VARWHOLE", "the whole function folded on every small counter vector: when +Inf is returned and what the score is otherwise")
 }
 
 // M-ZEROED: a recorder whose error is dropped works on counters the caller has just cleared
